@@ -104,6 +104,11 @@ func c20Run(c *core.Ctx, i int) {
 			c20Newlines(c)
 			c20TextAnswers(c)
 		}
+		if (i-nSeal-blocks)%3 == 0 {
+			for k := 0; k < 6; k++ {
+				c20Generated(c, (i-nSeal-blocks)*6+k)
+			}
+		}
 		c20Mixed(c, i-nSeal-blocks)
 		return
 	}
@@ -801,5 +806,70 @@ func c20FileRoundTrip(c *core.Ctx, kp learn.KeyPair, text string) {
 				}
 			}
 		}()
+	}
+}
+
+// c20Generated: a question that generates one sub-question per selected member of a txtar archive
+// (`generate-questions: b, d`): the exported answer key (built from the verified answer of every sub-question) names, for every
+// sub-question, the letter of the choice whose output is the output the sub-question shows - which is
+// the member it was generated from, wherever that member stands in the selection.
+func c20Generated(c *core.Ctx, n int) {
+	r := c.Rng
+	words := []string{"apple", "banana", "cherry", "date", "elder", "fig"}
+	nf := 3 + r.Intn(4)
+	letters := "abcdef"[:nf]
+	var sel []string
+	for _, l := range letters {
+		if r.Intn(2) == 0 {
+			sel = append(sel, string(l))
+		}
+	}
+	if len(sel) == 0 {
+		sel = []string{string(letters[nf-1])}
+	}
+	gen := strings.Join(sel, ", ")
+	if r.Intn(5) == 0 {
+		gen, sel = "all", strings.Split(letters, "")
+	}
+	root := filepath.Join(c.Tmp, fmt.Sprintf("c20gen-%d", n))
+	dir := filepath.Join(root, "course", "unit", "exercise")
+	defer os.RemoveAll(root)
+	_ = os.MkdirAll(dir, 0o755)
+	var tx strings.Builder
+	for k, l := range letters {
+		fmt.Fprintf(&tx, "-- %c.evy --\nprint %q\n", l, words[k])
+	}
+	md := "---\ntype: question\ndifficulty: easy\nanswer-type: single-choice\ngenerate-questions: " + gen + "\n---\n\n## Understanding sequence\n\nWhich program generates the following output?\n\n[question](q-gen.txtar \"evy:text\")\n\nChoose one correct answer:\n\n- [answer](q-gen.txtar \"evy:source\")\n"
+	_ = os.WriteFile(filepath.Join(dir, "q-gen.md"), []byte(md), 0o644)
+	_ = os.WriteFile(filepath.Join(dir, "q-gen.txtar"), []byte(tx.String()), 0o644)
+	desc := fmt.Sprintf("generated sub-questions: %d members, generate-questions: %s", nf, gen)
+	witness := md + "\n--- q-gen.txtar ---\n" + tx.String()
+	defer func() {
+		if p := recover(); p != nil {
+			c.Violation("verify:crash", fmt.Sprintf("%s: %v", desc, p), witness, nil)
+		}
+	}()
+	m, err := learn.NewQuestionModel(filepath.Join(dir, "q-gen.md"))
+	if err != nil {
+		c.Violation("harness-question-rejected", desc+": "+err.Error(), witness, nil)
+		return
+	}
+	c.Event("generated_questions", 1)
+	c.Distinct("generated|" + letters + "|" + gen)
+	ak, err := m.ExportAnswerKey() // verifies every sub-question on the way
+	if err != nil {
+		c.Violation("verify:generated:export", desc+": ExportAnswerKey failed: "+err.Error(), witness, nil)
+		return
+	}
+	var got []string
+	for _, q := range ak["course"]["unit"]["exercise"] {
+		got = append(got, q.Single)
+	}
+	sort.Strings(got)
+	want := append([]string{}, sel...)
+	sort.Strings(want)
+	c.Event("generated_answers_checked", len(got))
+	if strings.Join(got, ",") != strings.Join(want, ",") {
+		c.Violation("verify:generated:answer-key", fmt.Sprintf("%s: the exported answers are %v, the sub-questions show the outputs of members %v", desc, got, want), witness, nil)
 	}
 }
